@@ -720,12 +720,14 @@ Lemma flush_wrapping_spec s s1 :
 Proof.
   unfold flush_wrapping. destruct (wrapping s) as [w|] eqn:Ew.
   - destruct (take_trailing_fragments w) as [w1 frags] eqn:Et. intros H Hp.
-    bind_inv H ls Hls. ok_inv H.
+    bind_inv H lm Hlm. ok_inv H.
     assert (Hfr : flat_map elem_text frags = []).
     { rewrite ttf_eq in Et. injection Et as _ <-. apply no_content_text, tfr_snd_nocontent. }
+    pose proof (no_content_text _ (wb_into_lines_markers_no_content _ _ Hlm)) as Hmk.
+    destruct lm as [ls mk]. cbn [fst snd] in *.
     destruct (extend_lines_spec (map RText ls) (set_wrapping s None) Hp) as (A & B & C & D).
     sprj. split; [exact C|]. split.
-    { unfold ptxt in *. sprj. rewrite flat_map_app, Hfr, B. reflexivity. }
+    { unfold ptxt in *. sprj. rewrite !flat_map_app, Hfr, Hmk, B. reflexivity. }
     split; [exact D|]. split; [discriminate|]. eexists. exact A.
   - intros H Hp. ok_inv H. split; [exact Ew|]. split; [exact Hp|]. split; [apply same_ctx_refl|].
     split; [auto|]. exists []. rewrite app_nil_r. reflexivity.
@@ -748,7 +750,7 @@ Proof.
   unfold out_lines, sub_into_lines, flush_wrapping, end_block. sprj.
   destruct (wrapping s) as [w|]; [|reflexivity].
   destruct (take_trailing_fragments w) as [w1 frags].
-  destruct (wb_into_lines w1) as [ls| | |]; cbn [bind]; try reflexivity.
+  destruct (wb_into_lines_markers w1) as [[ls mk]| | |]; cbn [bind fst snd]; try reflexivity.
   f_equal. f_equal. sprj.
   assert (G : forall l a b, slines a = slines b -> pending_frags a = pending_frags b ->
                 slines (extend_lines a l) = slines (extend_lines b l)).
@@ -1311,7 +1313,7 @@ Section PartB.
   Proof.
     intros x y [Hg ->]. unfold flush_wrapping. rprj. destruct (wrapping x) as [w|].
     - destruct (take_trailing_fragments w) as [w1 frags].
-      destruct (wb_into_lines w1) as [ls| | |]; cbn [bind res_rel]; auto.
+      destruct (wb_into_lines_markers w1) as [[ls mk]| | |]; cbn [bind res_rel fst snd]; auto.
       change (set_wrapping (reopt x o2) None) with (reopt (set_wrapping x None) o2).
       rewrite extend_lines_reopt. rprj. split; [|reflexivity].
       destruct (extend_lines_same (map RText ls) (set_wrapping x None)) as [A B].
@@ -2067,7 +2069,7 @@ Proof.
   intros H1 H2 H3. unfold sub_into_lines, flush_wrapping. rewrite H3.
   destruct (wrapping s) as [w|]; [|cbn [bind]; congruence].
   destruct (take_trailing_fragments w) as [w1 frags].
-  destruct (wb_into_lines w1) as [ls| | |]; cbn [bind]; try reflexivity. sprj. f_equal.
+  destruct (wb_into_lines_markers w1) as [[ls mk]| | |]; cbn [bind fst snd]; try reflexivity. sprj. f_equal.
   apply extend_lines_ext; sprj; assumption.
 Qed.
 
